@@ -97,7 +97,13 @@ class SdkDriver:
         op = st["op"]
         if op == "array":
             if "init" in st:
-                self.arrays[st["name"]] = conn.new_array(len(st["init"]), init_values=list(st["init"]))
+                buf = list(st["init"])
+                self.arrays[st["name"]] = conn.new_array(len(st["init"]), init_values=buf)
+                # every other time the host re-uses its buffer for something else before the flush: the array was given its
+                # initial values when it was created
+                self._bufs = getattr(self, "_bufs", 0) + 1
+                if self._bufs % 2 == 0:
+                    buf[:] = [(7 if x is None else x + 7) for x in buf]
             else:
                 self.arrays[st["name"]] = conn.new_array(st["len"])
             self.created_in_segment[st["name"]] = self.segment
